@@ -300,7 +300,14 @@ r, t := %(X)s(p, q)
 print(p, q, r, t)
 ''',
 }
+ROLE_TEMPLATES["global-string-empty"] = '''%(X)s := ""
+var other string
+print("[" + %(X)s + "]", "[" + other + "]")
+%(X)s = %(X)s + "x"
+print(%(X)s, len(%(X)s))
+'''
 ROLE_EXPECTED = {
+    "global-string-empty": ["[] []", "x 1"],
     "global-scalar": ["0 0 6", "2 0 6", "0 1", "1 2", "2 3", "3 0", "4 9", "6 3 5 el h 5 k! 4 3 0"],
     "global-slice": ["0 a", "1 b", "2 ", "3 z", "4 2 el 6 k! b |"],
     "local": ["0 6 6 7", "16 k!"],
